@@ -131,6 +131,18 @@ def ob_keygen_sm9(fname, twist):
     return run_obligation("keygen_sm9_%s" % fname.replace("::", "_"), ["gm_sm9::key::" + fname], "all CSPRNG outputs; at most two draws", body, ["thread_rng/fill_bytes -> environment delivering arbitrary bytes", "g_mul -> uninterpreted"])
 
 
+def ob_native_threads():
+    """counterexample search only (never supports a holds verdict): the first scalars of fresh threads of one process must differ"""
+    def body(stats):
+        from core import native
+        out = native("sm2_fresh_threads")
+        if out and out.startswith("dup:"):
+            raise Violation("SM2 key generation in fresh threads of one process returned repeated private scalars (%s): the generator is not seeded afresh from the OS per thread" % out,
+                            {"native": out, "cmd": "gmreplay sm2_fresh_threads"})
+        return {"native": out, "note": "search only; a pass here decides nothing"}
+    return run_obligation("native_search_fresh_across_threads", ["gm_sm2::key::gen_keypair"], "8 key generations in 4 threads (native search)", body, [])
+
+
 def run(tier, seed, t0):
     jobs = [lambda: ob_sampler("gm-sm2", "random_u256", N2), lambda: ob_sampler("gm-sm9", "sm9_random_u256", N9, ["SM9_N_MINUS_ONE"]),
             ob_keygen_sm2, lambda: ob_keygen_sm9("generate_sign_master_key", True), lambda: ob_keygen_sm9("generate_enc_master_key", False),
@@ -139,7 +151,7 @@ def run(tier, seed, t0):
     # remembers from earlier invocations (the obligations of the protocol properties, run here as well)
     import c03, c05, c09, c10, c15, c17
     jobs += [c03.ob_sign_raw, lambda: c05.ob_encrypt(5, False, True), c15.ob_exchange_1_4, lambda: c15.side_b(16), lambda: c15.side_b(16, used=True),
-             lambda: c09.ob_sign(3), lambda: c10.ob_encrypt(5, 3, only_scalar=True), c17.ob_1a, lambda: c17.ob_1b(16)]
+             lambda: c09.ob_sign(3), lambda: c10.ob_encrypt(5, 3, only_scalar=True), c17.ob_1a, lambda: c17.ob_1b(16), ob_native_threads]
     res = run_parallel(jobs, nproc=14)
     return finish("C14", tier, seed, "other", res, t0,
                   assumptions=["the operating-system-seeded CSPRNG (rand::thread_rng) delivers fresh, unbiased bytes: trusted, not decidable by this technique",
